@@ -37,7 +37,7 @@ FIELDS = [{'name': '_p', 'type': 'integer'}, {'name': 'id', 'type': 'integer'}, 
 @st.composite
 def cases_(draw, tier):
     n_src = draw(st.integers(1, 3))
-    form = draw(st.sampled_from(['generator', 'load_tuple', 'sources', 'load_file', 'sized_iterable', 'sql_query']))
+    form = draw(st.sampled_from(['generator', 'load_tuple', 'sources', 'load_file', 'sized_iterable', 'sql_query', 'unstream_file']))
     keep = list(range(n_src))
     if form == 'load_tuple' and n_src >= 2 and draw(st.booleans()):
         # load((descriptor, iterators), resources=[...]) selecting only some of the resources (the first one always)
@@ -152,6 +152,7 @@ def run(case, n, ctx):
                                        'delivered_up_to': delivered_last[s]}
             yield r
     env = gp.Env(ctx, 'n%d' % n)
+    unpatch = []
     steps = [gp.build(s, env) for s in case['steps']]
     form = case['source_form']
     if case.get('to_sql') is not None:
@@ -219,6 +220,71 @@ def run(case, n, ctx):
                 kw['infer_strategy'] = {'full': L.INFER_FULL, 'strings': L.INFER_STRINGS, 'pytypes': L.INFER_PYTHON_TYPES}[case['infer']]
             srcs.append(dataflows.load('res_%d.counting' % (s_ + 1), name='res_%d' % (s_ + 1), format='counting',
                                        custom_parsers={'counting': make()}, **kw))
+    elif form == 'unstream_file':
+        # unstream(<file name>) - what a checkpoint does on every run after the first - over a stream file written by the
+        # harness; the file object the step opens is a proxy that counts the row lines handed out
+        import json as _json
+        path = os.path.join(ctx.tmpdir(), 'stream.ndjson')
+        desc_ = gen.descriptor_of([{'name': 'res_%d' % (s_ + 1), 'fields': FIELDS, 'rows': []} for s_ in range(case['n_src'])])
+        with open(path, 'w') as f_:
+            f_.write(_json.dumps(desc_) + '\n')
+            for s_ in range(case['n_src']):
+                for i in range(n):
+                    f_.write(_json.dumps({'_p': s_ * 10 ** 7 + i, 'id': i + 1, 'g': i % 3 + 1, 'txt': 's%d' % (i % 17),
+                                          'n1': (i % 11) if i >= case.get('null_prefix', 0) else None}) + '\n')
+                f_.write('\n')
+
+        class CountingFile:
+            def __init__(self, fh):
+                self.fh = fh
+                self.res = -1           # -1: the descriptor line has not been read yet
+
+            def _count(self, line):
+                if self.res < 0:
+                    self.res = 0
+                elif line.strip() == '':
+                    self.res += 1
+                elif self.res < len(pulled):
+                    pulled[self.res] += 1
+
+            def readline(self, *a):
+                line = self.fh.readline(*a)
+                if line != '':
+                    self._count(line)
+                return line
+
+            def read(self, *a):
+                data = self.fh.read(*a)
+                for line in data.splitlines():
+                    self._count(line)
+                return data
+
+            def __iter__(self):
+                return self
+
+            def __next__(self):
+                line = self.readline()
+                if line == '':
+                    raise StopIteration
+                return line
+
+            def close(self):
+                self.fh.close()
+
+            def __enter__(self):
+                return self
+
+            def __exit__(self, *a):
+                self.fh.close()
+                return False
+
+            def __getattr__(self, name):
+                return getattr(self.fh, name)
+        import sys as _sys
+        umod = _sys.modules['dataflows.processors.unstream']
+        umod.open = lambda *a, **kw: CountingFile(open(*a, **kw))
+        unpatch.append(lambda: umod.__dict__.pop('open', None))
+        srcs = [dataflows.unstream(path)]
     elif form == 'sql_query':
         # load(format='sql') of a query over an SQLite table; a user-defined SQL function counts the rows the database hands out
         import sqlite3
@@ -242,8 +308,12 @@ def run(case, n, ctx):
         if case.get('keep') and len(case['keep']) < case['n_src']:
             kw['resources'] = ['res_%d' % (i + 1) for i in case['keep']]
         srcs = [dataflows.load((desc, [source(s) for s in range(case['n_src'])]), **kw)]
-    with quiet():
-        Flow(*srcs, *steps, tap).process()
+    try:
+        with quiet():
+            Flow(*srcs, *steps, tap).process()
+    finally:
+        for u in unpatch:
+            u()
     return worst, deliveries[0], list(pulled)
 
 
